@@ -18,6 +18,8 @@ pub enum FsNode {
     B64(String),
     /// synthesised big file: a valid-looking v3 map with `n` mapping segments
     HugeMap(usize),
+    /// synthesised big file: a small valid v3 map whose `sourcesContent` entry makes the body `n` bytes long
+    BigBody(usize),
     Dir,
     Denied,
     /// open fails with the given kind
@@ -179,9 +181,23 @@ impl FsSpec {
             FsNode::Text(s) => Some(s.as_bytes().to_vec()),
             FsNode::B64(s) => crate::prng::b64_decode(s),
             FsNode::HugeMap(n) => Some(huge_map(*n)),
+            FsNode::BigBody(n) => Some(big_body(*n)),
             _ => None,
         }
     }
+}
+
+pub fn big_body(n: usize) -> Vec<u8> {
+    let head = "{\"version\":3,\"sources\":[\"big.ts\"],\"sourcesContent\":[\"";
+    let tail = "\"],\"names\":[\"n\"],\"mappings\":\"AAAAA;AACA;AACA\"}";
+    let fill = n.saturating_sub(head.len() + tail.len());
+    let mut s = String::with_capacity(n + 16);
+    s.push_str(head);
+    for i in 0..fill {
+        s.push(if i % 64 == 63 { ' ' } else { 'x' });
+    }
+    s.push_str(tail);
+    s.into_bytes()
 }
 
 pub fn huge_map(n: usize) -> Vec<u8> {
